@@ -601,6 +601,25 @@ EXPOSURE = 256.0
 SIM_BOX = 8.0
 
 
+def remask_partner(mask, ky, kx):
+    """a first mask A for the masking history A -> B (B = `mask`): B's unmasked pixels without the last one, plus the first
+    interior pixel that B masks - so B has a pixel outside A and A one outside B whenever the interior allows it"""
+    H, W = mask.shape
+    hy, hx_ = ky // 2, kx // 2
+    pos = ref_positions(mask)
+    interior = [(y, x) for y in range(hy, H - hy) for x in range(hx_, W - hx_)]
+    keep = set(pos[:-1])
+    extra = [p for p in interior if mask[p]]
+    if extra:
+        keep.add(extra[0])
+    if not keep:
+        keep = set(pos)               # single-pixel interior: A = B
+    first = np.full((H, W), True)
+    for p in keep:
+        first[p] = False
+    return first
+
+
 def body_simulate(inp, H, W, ky, kx, normalize, total=None):
     import autoarray as aa
     mask = np.array(inp["mask"], dtype=bool).reshape(H, W)
@@ -624,10 +643,9 @@ def body_simulate(inp, H, W, ky, kx, normalize, total=None):
         return {"simulated": "%r %s" % (ds, ds.msg)}, {"simulated": "no exception"}
     Kn = K
     if normalize:
-        tot = 0.0
-        for e in K.reshape(-1):
-            tot = tot + e
-        Kn = K / tot
+        # C03 states that data and dataset PSF are consistent, not HOW normalize_psf=True rescales the kernel: the reference
+        # convolves with the kernel the returned dataset reports (the reference convolution itself stays independent)
+        Kn = np.asarray(hx.unwrap(ds.psf.native)).reshape(ky, kx)
     A["simulated_data"] = hx.attempt(lambda: ds.data.native.array)
     E["simulated_data"] = np.array([ref_conv_at(v, every, Kn, t) for t in every], dtype=object).reshape(H, W)
 
@@ -640,6 +658,19 @@ def body_simulate(inp, H, W, ky, kx, normalize, total=None):
 
     A["residual_of_generating_image"] = hx.attempt(fit)
     E["residual_of_generating_image"] = np.zeros(len(pos))
+    # masking history: mask with A first, then re-mask the MASKED dataset with the mask under test (B has pixels outside A):
+    # the data of the re-masked dataset must again be the simulated image on B, i.e. zero residual on B
+    first_mask = remask_partner(mask, ky, kx)
+
+    def fit_remasked():
+        once = ds.apply_mask(mask=aa.Mask2D(mask=first_mask.copy(), pixel_scales=1.0))
+        twice = once.apply_mask(mask=m)
+        bm = m.derive_mask.blurring_from(kernel_shape_native=(ky, kx))
+        model = twice.convolver.convolve_image(image=aa.Array2D(values=v.copy(), mask=m), blurring_image=aa.Array2D(values=v.copy(), mask=bm))
+        return twice.data.slim.array - model.slim.array
+
+    A["residual_after_remasking"] = hx.attempt(fit_remasked)
+    E["residual_after_remasking"] = np.zeros(len(pos))
     if not normalize:
         # the same data in a dataset that was told NOT to normalise its PSF: masking must keep that PSF
         def fit_raw():
